@@ -202,6 +202,12 @@ func (prom *Prometheus) RangeQuery(ctx context.Context, expr string, params Rang
 		merged.Series.Ranges, _ = MergeRanges(merged.Series.Ranges, step)
 	}
 
+	if lastErr == nil && ctx.Err() != nil {
+		// The context was cancelled while some slices were still in flight,
+		// what we collected so far is not the result of this query.
+		lastErr = ctx.Err()
+	}
+
 	if lastErr != nil {
 		return nil, QueryError{err: lastErr, msg: decodeError(lastErr)}
 	}
